@@ -20,8 +20,9 @@ Go ↔ model
 * `archive_reconciler.go` (the last sub-reconciler of the pass) is not modelled here (C08): archival
   and garbage collection of old revisions appear as the environment operations `arch` / `del` with
   the guards PKO's own archiver obeys.  The harness runs the real archiveReconciler as part of every
-  pass and reports what it archived as separate `arch` steps right after the pass (so the guard of
-  `arch` is checked against the real archiver whenever it acts).
+  pass and reports what it archived / garbage collected (beyond `spec.revisionHistoryLimit`, which the
+  histories vary: operation `limit`) as separate `arch` / `del` steps right after the pass (so the
+  guards of `arch` and `del` are checked against the real archiver whenever it acts).
 * `internal/controllers/objectsets/revision_reconciler.go`  `revisionReconciler.Reconcile`
     ↦ `osPass` (set once; no previous → 1; otherwise max(previous)+1, waiting for previous
     revisions that do not report a number yet; the ObjectSet controller does not run it for an
@@ -85,6 +86,7 @@ inductive Op where
   | del (i : Nat)
   | squat (d : Nat) (owned arch : Bool) (spec rev : Nat) (prev : List Nat)
   | restart
+  | limit (l : Option Nat)   -- the user sets spec.revisionHistoryLimit (`none` = field absent, default 10)
   deriving DecidableEq, Repr, Inhabited
 
 def init (t : Nat) : State :=
@@ -261,6 +263,11 @@ def step (c : Cfg) (s : State) : Op → State
                   sets := s.sets ++ [{ serial := s.next, name := n, hash := n, spec := spec, prev := prev, rev := rev,
                                        archived := arch, owned := owned, member := false }] }
   | .restart => s
+  -- spec.revisionHistoryLimit is read by `archiveReconciler.garbageCollectRevisions` only (an
+  -- environment operation here, `del`): neither `objectSetReconciler` nor `newRevisionReconciler` /
+  -- `newObjectSetFromDeployment` look at it, so it is not part of the modelled state and changing it
+  -- changes nothing a pass decides (`Pko.Props.C07.limit_irrelevant`).
+  | .limit _ => s
 
 def run (c : Cfg) (s : State) (ops : List Op) : State := ops.foldl (step c) s
 
